@@ -18,6 +18,7 @@ from elementpath.helpers import split_function_test
 
 from elementpath.sequence_types import match_sequence_type, is_sequence_type_restriction
 from .functions import XPathFunction
+from elementpath.helpers import OPTIONAL_COMMENTS
 
 
 class XPathArray(XPathFunction):
@@ -26,7 +27,7 @@ class XPathArray(XPathFunction):
     """
     symbol = 'array'
     label = 'array'
-    pattern = r'(?<!\$)\barray(?=\s*(?:\(\:.*\:\))?\s*\{(?!\:))'
+    pattern = r'(?<!\$)\barray(?=' + OPTIONAL_COMMENTS + r'\{(?!\:))'
     _array: Optional[list[ta.ValueType]] = None
 
     def __init__(self, parser: ta.XPathParserType,
